@@ -17,6 +17,7 @@ import PoetryVerif.Proofs.VRangeDiffU
 import PoetryVerif.Proofs.VRangeFinalSet
 import PoetryVerif.Proofs.VRangeInterAt
 import PoetryVerif.Proofs.VRangePairwise
+import PoetryVerif.Proofs.VRangeDiffAt
 
 set_option linter.unusedSimpArgs false
 set_option linter.unusedVariables false
@@ -863,5 +864,140 @@ def C05_full_statement : Prop :=
       ∀ p, p.wf = true → Regular (a.bounds ++ b.bounds) p →
         ∃ pa pb, a.allows p = .ok pa ∧ b.allows p = .ok pb ∧
           i.allows p = .ok (pa && pb) ∧ u.allows p = .ok (pa || pb) ∧ d.allows p = .ok (pa && !pb)
+
+/-- **`VersionRange.difference(VersionRange)` on every probe, for half-open ranges with unstable ends**
+(`RC.DevDev`: `>=m`, `<M` with `m`, `M` unstable — `X.dev0`, `X.rc1`, … — and non-local): the operation returns, the
+result is well-formed, it is EXACT at every well-formed probe (no regularity of the probe, none of the bounds among
+themselves), and the class is closed: an empty result, or one piece of the class, or `VersionUnion.of` of the two
+pieces `[a.min, b.min)` and `[b.max, a.max)` which are both of the class.  With a stable upper end of `b` the
+statement is false (the piece above `b` starts at `b.max` while `b` itself ends at `b.max.dev0`: finding
+`adjacent-union-gap`). -/
+theorem halfopen_dev_difference_exact (a b : VRange) (ha : RC.DevDev (.rng a)) (hb : RC.DevDev (.rng b)) :
+    ∃ res, RC.rngDifferenceRng a b = .ok res ∧ res.WF ∧
+      (res = .empty ∨ (∃ x, res = .single x ∧ x.DevDev) ∨
+        ∃ x y, x.DevDev ∧ y.DevDev ∧ unionOfFlat [x, y] = .ok res) ∧
+      ∀ p, p.wf = true → res.allowsPlain p = (a.allows p && !b.allows p) := by
+  obtain ⟨awf, atd, aho, ab⟩ := ha.parts
+  obtain ⟨bwf, btd, bho, bb⟩ := hb.parts
+  have hec := VRange.endsConsistent_devdev ha hb
+  have aM : ∀ M, a.max = some M → M.isUnstable = true := fun M hM => (ab M (VRange.mem_bounds_max hM)).2
+  have bM : ∀ M, b.max = some M → M.isUnstable = true := fun M hM => (bb M (VRange.mem_bounds_max hM)).2
+  have hA : ∀ p, p.wf = true → (a.allows p = true ↔ a.raw p) := fun p hp => ha.allows_iff_sem p hp
+  have hB : ∀ p, p.wf = true → (b.allows p = true ↔ b.raw p) := fun p hp => hb.allows_iff_sem p hp
+  have target : ∀ p, p.wf = true → ∀ (X : Prop), (X ↔ (a.raw p ∧ ¬ b.raw p)) → ∀ r : Bool, (r = true ↔ X) →
+      r = (a.allows p && !b.allows p) := by
+    intro p hp X hX r hr
+    apply bool_eq_of_iff
+    rw [hr, hX, Bool.and_eq_true, Bool.not_eq_true', ← Bool.not_eq_true, hA p hp, hB p hp]
+  rw [VRange.rngDifferenceRng_eq]
+  obtain ⟨any, hany⟩ := RC.allowsAny_ok (.rng a) (.rng b)
+  simp only [hany, bind, Except.bind]
+  cases any with
+  | false =>
+    refine ⟨.single (.rng a), by simp [pure, Except.pure], ha.wf_ne,
+      Or.inr (Or.inl ⟨_, rfl, ha⟩), fun p hp => ?_⟩
+    have fine : ∀ (t : VRange), t.HalfOpen → t.OKat p := fun t ht =>
+      ⟨fun m hm => Or.inl (ht.1 m hm), fun M hM => Or.inl (ht.2 M hM)⟩
+    have hno := rng_allowsAny_false_sound_at a b awf bwf hany p hp (fine a aho) (fine b bho)
+    simp only [VC.allowsPlain, VC.flatten, List.any_cons, List.any_nil, Bool.or_false, RC.allows]
+    cases h1 : a.allows p <;> cases h2 : b.allows p <;> simp_all
+  | true =>
+    simp only [Bool.not_true, Bool.false_eq_true, if_false]
+    simp only [RC.allowsAny, VRange.isStrictlyHigher, Except.ok.injEq, Bool.not_eq_true',
+      Bool.or_eq_false_iff] at hany
+    have core : ∀ p, (a.raw p ∧ ¬ b.raw p) ↔ ((a.denLo p ∧ ¬ b.denLo p) ∨ (a.rawHi p ∧ ¬ b.rawHi p)) := by
+      intro p
+      have c1 : a.rawHi p ∨ b.denLo p := by
+        rcases VRange.strictlyLower_false_cover hany.2 p with h1 | h1
+        · exact Or.inl ((VRange.denHi_iff_rawHi_unstable a aM p).1 h1)
+        · exact Or.inr h1
+      have c2 : b.rawHi p ∨ a.denLo p := by
+        rcases VRange.strictlyLower_false_cover hany.1 p with h1 | h1
+        · exact Or.inl ((VRange.denHi_iff_rawHi_unstable b bM p).1 h1)
+        · exact Or.inr h1
+      exact VRange.diff_core c1 c2
+    obtain ⟨o1, e1, s1⟩ := VRange.beforePiece_spec a b awf bwf atd
+    obtain ⟨o2, e2, s2⟩ := VRange.afterPiece_spec a b awf bwf atd hec
+    simp only [e1, e2]
+    have inc2' : (∀ p, a.denHi p → b.denHi p) → ∀ p, a.rawHi p → b.rawHi p := fun h p hp =>
+      (VRange.denHi_iff_rawHi_unstable b bM p).1 (h p ((VRange.denHi_iff_rawHi_unstable a aM p).2 hp))
+    cases o1 with
+    | none =>
+      have inc1 : ∀ p, a.denLo p → b.denLo p := s1
+      cases o2 with
+      | none =>
+        have inc2 := inc2' s2
+        refine ⟨.empty, rfl, trivial, Or.inl rfl, fun p hp => ?_⟩
+        exact target p hp False (by
+          rw [core]; constructor; exact False.elim
+          rintro (⟨h1, h2⟩ | ⟨h1, h2⟩); exact h2 (inc1 p h1); exact h2 (inc2 p h1))
+          _ (by simp [VC.allowsPlain, VC.flatten])
+      | some y =>
+        have yd := VRange.afterPiece_devdev ha hb e2
+        obtain ⟨_, _, _, ysem, _⟩ := s2
+        refine ⟨.single y, rfl, yd.wf_ne, Or.inr (Or.inl ⟨_, rfl, yd⟩), fun p hp => ?_⟩
+        refine target p hp (y.sem p) ?_ _ (by simpa [VC.allowsPlain, VC.flatten] using yd.allows_iff_sem p hp)
+        rw [core, ysem p]
+        constructor
+        · exact Or.inr
+        · rintro (⟨h1, h2⟩ | h1); exact absurd (inc1 p h1) h2; exact h1
+    | some x =>
+      have xd := VRange.beforePiece_devdev ha hb e1
+      obtain ⟨_, _, _, xsem, _⟩ := s1
+      cases o2 with
+      | none =>
+        have inc2 := inc2' s2
+        refine ⟨.single x, rfl, xd.wf_ne, Or.inr (Or.inl ⟨_, rfl, xd⟩), fun p hp => ?_⟩
+        refine target p hp (x.sem p) ?_ _ (by simpa [VC.allowsPlain, VC.flatten] using xd.allows_iff_sem p hp)
+        rw [core, xsem p]
+        constructor
+        · exact Or.inl
+        · rintro (h1 | ⟨h1, h2⟩); exact h1; exact absurd (inc2 p h1) h2
+      | some y =>
+        have yd := VRange.afterPiece_devdev ha hb e2
+        obtain ⟨_, _, _, ysem, _⟩ := s2
+        have hm : ∀ c ∈ [x, y], c.HalfOpenDev := by
+          intro c hc
+          simp only [List.mem_cons, List.mem_nil_iff, or_false] at hc
+          rcases hc with rfl | rfl
+          · exact xd.1
+          · exact yd.1
+        obtain ⟨res, h1, h2, h3⟩ := halfopen_dev_union_of_exact [x, y] hm
+        refine ⟨res, h1, h2, Or.inr (Or.inr ⟨x, y, xd, yd, h1⟩), fun p hp => ?_⟩
+        rw [h3 p hp]
+        refine target p hp (x.sem p ∨ y.sem p) ?_ _ ?_
+        · rw [core, xsem p, ysem p]
+        · simp only [anyAllows, List.any_cons, List.any_nil, Bool.or_false, Bool.or_eq_true]
+          rw [xd.allows_iff_sem p hp, yd.allows_iff_sem p hp]
+
+/-- `[X.dev0, Y.dev0)` as a range -/
+def devRange (x y : Nat) : VRange :=
+  ⟨some (Version.mk' 0 [x] none none (some ⟨.dev, 0⟩) none), some (Version.mk' 0 [y] none none (some ⟨.dev, 0⟩) none),
+    true, false⟩
+
+/-- the hypotheses are satisfiable, and the two-piece case occurs: `[1.dev0, 4.dev0) − [2.dev0, 3.dev0)` -/
+example : RC.DevDev (.rng (devRange 1 4)) ∧ RC.DevDev (.rng (devRange 2 3)) ∧
+    RC.rngDifferenceRng (devRange 1 4) (devRange 2 3) = .ok (.union [.rng (devRange 1 2), .rng (devRange 3 4)]) := by
+  refine ⟨?_, ?_, by decide +kernel⟩
+  · refine RC.DevDev.mk' _ ⟨?_, ?_⟩ ⟨by simp [devRange], by simp [devRange]⟩ ⟨by simp [devRange], by simp [devRange]⟩ ?_
+    · intro e he; simp [VRange.bounds, devRange] at he; rcases he with rfl | rfl <;> decide
+    · intro m M hm hM; simp [devRange] at hm hM; subst hm; subst hM; rw [vk_lt_iff]; decide
+    · intro e he; simp [VRange.bounds, devRange] at he; rcases he with rfl | rfl <;> decide
+  · refine RC.DevDev.mk' _ ⟨?_, ?_⟩ ⟨by simp [devRange], by simp [devRange]⟩ ⟨by simp [devRange], by simp [devRange]⟩ ?_
+    · intro e he; simp [VRange.bounds, devRange] at he; rcases he with rfl | rfl <;> decide
+    · intro m M hm hM; simp [devRange] at hm hM; subst hm; subst hM; rw [vk_lt_iff]; decide
+    · intro e he; simp [VRange.bounds, devRange] at he; rcases he with rfl | rfl <;> decide
+
+/-- **with a stable upper end of the subtrahend the difference loses versions** (same family as
+`adjacent-union-gap`; replayed on the real code: `(>=1.dev0,<4.dev0).difference(>=2.dev0,<3)` is
+`==1.* || >=3,<4.dev0`, which rejects `3.dev0` although the minuend admits it and the subtrahend does not) -/
+theorem counterexample_difference_stable_end :
+    let a := devRange 1 4
+    let b : VRange := ⟨some (Version.mk' 0 [2] none none (some ⟨.dev, 0⟩) none), some (Version.mk' 0 [3] none none none none), true, false⟩
+    let p := Version.mk' 0 [3] none none (some ⟨.dev, 0⟩) none
+    let res : VC := .union [.rng (devRange 1 2), .rng ⟨b.max, a.max, true, false⟩]
+    RC.rngDifferenceRng a b = .ok res ∧ a.allows p = true ∧ b.allows p = false ∧
+      res.allowsPlain p = false := by
+  decide +kernel
 
 end Poetry.C05
